@@ -224,6 +224,10 @@ func c12StepLevel(c *ctx, rng *core.Rand, _ []*core.Session, n int) error {
 	for i := 0; i < n; i++ {
 		o := &gen.Opts{R: rng, Str: c12TokStr, Key: func(r *core.Rand) string {
 			if r.Intn(4) == 0 {
+				if r.Intn(6) == 0 {
+					// a token in a key that names a dimension the permutation lacks: the call must fail
+					return core.Pick(r, []string{"opt-{{matrix.nope}}", "{{matrix.zz}}"})
+				}
 				if c12Mode == 0 {
 					return core.Pick(r, []string{"{{matrix}}", "k-{{matrix}}"})
 				}
